@@ -19,6 +19,9 @@ import (
 // Canon renders a value independently of ToString: type tags, sorted dict keys, floats by bits,
 // cycles marked. It is what oracles compare.
 func Canon(v *ds.VMValue) string {
+	if n := ExpandedSize(v); n > PrintLimit {
+		return fmt.Sprintf("<huge value: expanded size %d>", n)
+	}
 	var sb strings.Builder
 	canonInto(&sb, v, map[any]bool{}, 0)
 	return sb.String()
@@ -175,10 +178,78 @@ func CanonMap(m *ds.ValueMap) string {
 	if m == nil {
 		return "<nilmap>"
 	}
+	if n := ExpandedSize(ds.NewDictVal(m).V()); n > PrintLimit {
+		return fmt.Sprintf("<huge map: expanded size %d>", n)
+	}
 	var sb strings.Builder
 	canonMapInto(&sb, m, map[any]bool{}, 0)
 	return sb.String()
 }
+
+// ExpandedSize is the number of nodes a value has when printed as a tree (shared sub-structures
+// counted once per reference), computed on the DAG with memoisation and saturating at 1e12.
+// Printing (ToString, ToRepr, ToJSON, and this package's Canon) costs time and memory
+// proportional to it.
+func ExpandedSize(v *ds.VMValue) int64 {
+	memo := map[any]int64{}
+	onPath := map[any]bool{}
+	return expSize(v, memo, onPath)
+}
+
+const expSat = int64(1e12)
+
+func expSize(v *ds.VMValue, memo map[any]int64, onPath map[any]bool) int64 {
+	if v == nil {
+		return 1
+	}
+	var key any
+	var kids []*ds.VMValue
+	switch d := v.Value.(type) {
+	case string:
+		return 1 + int64(len(d)/16)
+	case *ds.ArrayData:
+		if d == nil {
+			return 1
+		}
+		key = d
+		kids = d.List
+	case *ds.DictData:
+		if d == nil || d.Dict == nil {
+			return 1
+		}
+		key = d
+		d.Dict.Range(func(k string, e *ds.VMValue) bool { kids = append(kids, e); return true })
+	case *ds.ComputedData:
+		if d == nil || d.Attrs == nil {
+			return 1
+		}
+		key = d
+		d.Attrs.Range(func(k string, e *ds.VMValue) bool { kids = append(kids, e); return true })
+	default:
+		return 1
+	}
+	if n, ok := memo[key]; ok {
+		return n
+	}
+	if onPath[key] {
+		return 1 // cycles are cut by every printer
+	}
+	onPath[key] = true
+	n := int64(1)
+	for _, k := range kids {
+		n += expSize(k, memo, onPath)
+		if n > expSat {
+			n = expSat
+			break
+		}
+	}
+	delete(onPath, key)
+	memo[key] = n
+	return n
+}
+
+// PrintLimit: values whose expanded size exceeds this are not printed by the harness.
+const PrintLimit = int64(2_000_000)
 
 // ---------------------------------------------------------------- configuration
 
@@ -428,12 +499,19 @@ func Observe(vm *ds.Context, o *Outcome, withDetail bool) {
 		if vm.Error != nil && o.Err == "" {
 			// Error is only part of the outcome when the call reported it
 		}
+		huge := false
 		if o.Err == "" && vm.Ret != nil {
 			o.HasRet = true
 			o.Ret = Canon(vm.Ret)
-			o.RetStr = vm.Ret.ToString()
+			if ExpandedSize(vm.Ret) > PrintLimit {
+				huge = true
+				o.RetStr = "<huge>"
+				o.Extra = "huge-result"
+			} else {
+				o.RetStr = vm.Ret.ToString()
+			}
 		}
-		if withDetail && o.Err == "" {
+		if withDetail && o.Err == "" && !huge {
 			o.Detail = vm.GetDetailText()
 		}
 		o.Matched = vm.Matched
@@ -465,9 +543,10 @@ func DoCmd(vm *ds.Context, c Cmd) *Outcome {
 			ret, err = vm.RunExpr(c.Src, c.Local)
 		}
 	})
-	if cancelled {
+	if cancelled || curMeterCancelled() {
 		o.Err = "<cancelled by simulator>"
 		vm.IsRunning = false
+		err = nil
 	}
 	if p {
 		o.Panic = sig
@@ -502,6 +581,11 @@ func DoCmd(vm *ds.Context, c Cmd) *Outcome {
 // digest of what it saw and a panic signature if one of them panicked.
 func ObservationBurst(vm *ds.Context) (seen string, panicSig string) {
 	var parts []string
+	if vm.Ret != nil && ExpandedSize(vm.Ret) > PrintLimit {
+		// printing would take time and memory exponential in the program size: reported by the
+		// caller as a resource finding, not executed
+		return "huge-result", ""
+	}
 	calls := []struct {
 		name string
 		f    func() string
@@ -579,10 +663,23 @@ type Meter struct {
 	OnStep func(s *ds.VerifStep) bool
 	MaxDepth int
 	DepthCap int // cancel when a sub-VM deeper than this starts executing (0 = none)
+	// HugeLimit: a string on top of the operand stack longer than this is recorded in Huge (with the
+	// opcode that produced it) and the evaluation is cancelled: memory exhaustion becomes a
+	// deterministic, attributable event instead of a dead worker. 0 = off.
+	HugeLimit int
+	Huge      string
+	prevOp    string
 }
+
+var curMeter *Meter
+
+// curMeterCancelled: the library may recover the cancellation sentinel itself (its dispatch loop
+// converts panics into errors); the meter remembers that the simulator cancelled.
+func curMeterCancelled() bool { return curMeter != nil && curMeter.Cancelled }
 
 // Install wires the meter into the package hooks. Single-threaded engines only.
 func (m *Meter) Install() {
+	curMeter = m
 	ds.VerifStepHook = func(s *ds.VerifStep) bool {
 		m.Ticks++
 		m.Steps++
@@ -599,6 +696,18 @@ func (m *Meter) Install() {
 		if m.DepthCap > 0 && s.Depth > m.DepthCap {
 			m.Cancelled = true
 			return true
+		}
+		if m.HugeLimit > 0 {
+			if s.Top > 0 {
+				if v := ds.VerifStackAt(s.Ctx, s.Top-1); v != nil && v.TypeId == ds.VMTypeString {
+					if str, ok := v.Value.(string); ok && len(str) > m.HugeLimit {
+						m.Huge = m.prevOp
+						m.Cancelled = true
+						return true
+					}
+				}
+			}
+			m.prevOp = ds.VerifOpName(s.Code)
 		}
 		if m.OnStep != nil {
 			return m.OnStep(s)
@@ -631,6 +740,7 @@ func (m *Meter) Install() {
 }
 
 func Uninstall() {
+	curMeter = nil
 	ds.VerifStepHook = nil
 	ds.VerifRollHook = nil
 	ds.VerifYieldHook = nil
@@ -642,6 +752,7 @@ func (m *Meter) Reset() {
 	m.Ledger = m.Ledger[:0]
 	m.CurOp = ""
 	m.MaxDepth = 0
+	m.Huge, m.prevOp = "", ""
 }
 
 // ResetGlobals puts every package-level generator into a state chosen by the run.
